@@ -304,6 +304,12 @@ def anchor_gate(spec):
         else:
             good = len(ms) == a.get("count", 1)
             found = len(ms)
+        if a.get("soft"):
+            # a model constant that no theorem depends on and that cannot be reached dynamically: a drift is
+            # recorded in the evidence, it is not a broken tie
+            results.append(dict(file=a["file"], regex=a["regex"], why=a.get("why", ""), found=found, ok=True,
+                                soft=True, drift=not good))
+            continue
         results.append(dict(file=a["file"], regex=a["regex"], why=a.get("why", ""), found=found, ok=good))
         ok = ok and good
     return ok, results
